@@ -32,6 +32,12 @@ def run(ctx):
         ctx.missing("C05.P1", "list builder", "no function wraps array-element digests as {\"...\": h}")
     for B in builders:
         p1_p2(ctx, fx, I, B)
+        ee = [(lp, e) for (lp, e) in common.loop_early_exits(B) if "serde_json" in lp.iter_ty or "Enumerate" in lp.iter_ty or "slice::Iter" in lp.iter_ty]
+        if ee:
+            lp, e = ee[0]
+            ctx.finding("C05.P1", B, "walk-complete", "the builder can stop iterating the claims early (line %s): remaining members/elements are dropped from the payload" % e["line"], line=B.term(lp.bb).get("line"))
+        else:
+            ctx.ok("C05.P1", B, "walk-complete", "the builder visits every member/element (no early exit from its loops)")
     p3(ctx, fx, I)
     p4(ctx, fx, I)
     p5(ctx, fx, I)
